@@ -622,3 +622,12 @@ package workflow
 //@   ghostvar pc constraint.Constraints = nil
 //@   on aftercall .getConstraints : pc = result ; got = true
 //@   on call (constraint.Constraints).MergeParent : assert got && arg1 == pc && fresh(arg0)
+
+// C14 ("an empty value is a definition"): every `!public` entry of a defaults/vars block that decodes is stored under its
+// key whatever its value - an empty string is stored as an empty string, it does not leave the key to an ancestor.
+//@ func kvStoreUnmarshalYAMLWithTags(w gera.Map[string, string], unmarshal func(interface{}) error) (err error)
+//@   property C14
+//@   ghostvar pend bool = false
+//@   on aftercall .Decode : pend = (result == nil)
+//@   on mapupdate m : pend = false
+//@   loop 1 invariant !pend
